@@ -3,9 +3,12 @@ open Sexp
 open Glue
 module M = Tt_model
 
+let side_ s = match atom s with "ser" -> true | "de" -> false | _ -> failwith "c06: bad side"
+
 let meta_ s : M.meta =
   match list s with
   | [Atom "rename"; v] -> M.MRename (str_ v)
+  | [Atom "renamep"; l] -> M.MRenameP (list_ (pair_ side_ str_) l)
   | [Atom "skip"] -> M.MSkip
   | [Atom "other"; n] -> M.MOther (str_ n, None)
   | [Atom "other"; n; v] -> M.MOther (str_ n, Some (str_ v))
@@ -14,7 +17,9 @@ let meta_ s : M.meta =
 let cmeta_ s : M.cmeta =
   match list s with
   | [Atom "ra"; v] -> M.CRenameAll (str_ v)
+  | [Atom "rap"; l] -> M.CRenameAllP (list_ (pair_ side_ str_) l)
   | [Atom "flag"; n] -> M.CFlag (str_ n)
+  | [Atom "kv"; n; v] -> M.CKV (str_ n, str_ v)
   | _ -> failwith "c06: bad container meta"
 
 let item_ s : M.item =
